@@ -32,7 +32,8 @@ from engine.tlc import MachineryError, mktemp, run_tlc, simulate_behaviours, val
 DEVS = ["hostOnlyKey", "staleExpiry", "pathAlias", "domainCase"]
 DEV_NAME = {"hostOnlyKey": "Dev_HostOnlyKey", "staleExpiry": "Dev_StaleExpiry",
             "pathAlias": "Dev_PathAlias", "domainCase": "Dev_DomainCase"}
-STIM_FIELDS = ("ev", "host", "path", "scheme", "name", "val", "dom", "pth", "secure", "maxage", "expires", "d", "n")
+STIM_FIELDS = ("ev", "host", "path", "scheme", "name", "val", "dom", "pth", "secure", "maxage", "expires", "d", "n",
+               "re")
 
 
 # ---------------------------------------------------------------- patched clock
@@ -195,7 +196,7 @@ class Exec:
         return row
 
     def do(self, st: dict) -> None:
-        e = {k: copy.deepcopy(st[k]) for k in STIM_FIELDS}
+        e = {k: copy.deepcopy(st.get(k, 0) if k == "re" else st[k]) for k in STIM_FIELDS}
         ev = e["ev"]
         e["via"] = self.mode
         if ev == "Receive":
@@ -257,15 +258,19 @@ class Exec:
 
 def execute(stimuli: List[dict], unsafe: bool, mode: str, loop: Optional[steploop.StepLoop], rng: Any,
             scratch: str, src: str, spelling: bool = False, battery: Optional[List[dict]] = None) -> dict:
-    """Run a history; Receive values are renumbered 1,2,3... in order (fresh integers)."""
+    """Run a history.  The k-th Receive carries the fresh value k, unless it re-sends the value of an
+    earlier Receive (re = ordinal of that Receive)."""
     x = Exec(unsafe, mode, loop, rng, scratch, battery=battery, spelling=spelling)
-    val = 0
+    vals: List[int] = []
     try:
         for st in stimuli:
             st = dict(st)
             if st["ev"] == "Receive":
-                val += 1
-                st["val"] = val
+                re_ = st.get("re", 0)
+                if re_ and not 1 <= re_ <= len(vals):
+                    re_ = st["re"] = 0           # (a shortened history lost the write it referred to)
+                vals.append(vals[re_ - 1] if re_ else len(vals) + 1)
+                st["val"] = vals[-1]
             x.do(st)
     finally:
         x.close()
@@ -364,7 +369,7 @@ def stimuli_of(t: dict) -> List[dict]:
                 and ev[i + 1]["ev"] == "Receive" and ev[i + 1].get("via") == "session"
                 and ev[i + 1]["host"] == e["host"] and ev[i + 1]["path"] == e["path"]):
             continue
-        out.append({k: e[k] for k in STIM_FIELDS})
+        out.append({k: (e.get(k, 0) if k == "re" else e[k]) for k in STIM_FIELDS})
     return out
 
 
@@ -479,14 +484,19 @@ def behaviours_to_histories(behs: List[List[Any]]) -> List[List[dict]]:
     out = []
     for beh in behs:
         st = []
+        nrecv = 0
         for _label, state in beh[1:]:
             last = state["last"]
             if last["ev"] == "init":
                 continue
             e = G.blank_event(last["ev"])
             for k in STIM_FIELDS:
-                v = last[k]
-                e[k] = _plain(v)
+                if k != "re":
+                    e[k] = _plain(last[k])
+            if e["ev"] == "Receive":
+                nrecv += 1
+                # value v was introduced by write v: a smaller value than the write's number is a re-send
+                e["re"] = e["val"] if e["val"] < nrecv else 0
             st.append(e)
         if st:
             out.append(st)
@@ -515,14 +525,16 @@ def run(ctx: Ctx) -> None:
         "where several cookies of one name are sendable (different domain/path) the jar returns one of them; any of "
         "them is accepted, ordering (s5.4 step 2) is not judged",
         "Set-Cookie syntax: well-formed headers with spelling variants (attribute order/case, separators, three "
-        "date formats, ignorable attributes); one header per response; values are fresh integers",
+        "date formats, ignorable attributes); one header per response; values are fresh integers, except that about a "
+        "tenth of the Set-Cookies re-send an earlier cookie with the SAME value and other attributes (Secure, lifetime, "
+        "equivalent Domain/Path spelling, host-only <-> Domain=host): the attributes of the latest write must win",
     ]
     loop = steploop.new_loop()
     scratch = mktemp("c16jar")
     J = Judge(ctx)
     # ---- 1. bounded model of the reference: exhaustive on a restricted lattice
     if ctx.quick:
-        models = [("small3", dict(steps=3, expiries="ExpiriesNone"))]
+        models = [("small3", dict(steps=3, kinds="KindsTiny", expiries="ExpiriesNone"))]
     else:
         models = [("small3", dict(steps=3)),
                   ("small4", dict(steps=4, kinds="KindsTiny", expiries="ExpiriesNone")),
@@ -536,7 +548,7 @@ def run(ctx: Ctx) -> None:
         ok = ctx.expect_model_ok(f"CookieStoreMC({name})", res)
         ctx.log(f"model {name}: {res.distinct} distinct / {res.generated} generated states, ok={ok}, {res.wall_s:.0f}s")
     # the deviation the code implements, as a design: TLC finds the host-only leak in it
-    if not os.environ.get("VERIF_C16_TRACES_ONLY"):
+    if not ctx.quick and not os.environ.get("VERIF_C16_TRACES_ONLY"):
         cfg = write_cfg("devHostOnlyKey", steps=3, cf="CfDevHostOnlyKey")
         res = run_tlc("CookieStoreMC", cfg, workers=16, timeout=300, deadlock=False)
         cex = []
@@ -555,7 +567,7 @@ def run(ctx: Ctx) -> None:
         cfg = write_cfg(cfname, spec="SpecSim", hosts="HostsFull", paths="PathsFull", names='{"n", "m"}',
                         kinds="KindsFull", expiries="ExpiriesFull", steps=ctx.pick(8, 10), cf=cf, view=False,
                         selfjudge=False)
-        num = ctx.pick(120, 1000) if not unsafe else ctx.pick(40, 300)
+        num = ctx.pick(100, 1000) if not unsafe else ctx.pick(30, 300)
         behs, res = simulate_behaviours("CookieStoreMC", cfg, num=num, depth=ctx.pick(9, 11), seed=ctx.seed, timeout=600)
         m = re.search(r"number of states generated: (\d+)", res.output)
         if m:                                   # -simulate reports its state count in another format
@@ -568,7 +580,7 @@ def run(ctx: Ctx) -> None:
         ctx.log(f"replayed {len(hs)} simulated behaviours (unsafe={unsafe})")
     J.judge(traces, "tlc-sim")
     # ---- 3. code -> spec: seeded random histories (spelling variants of the header grammar)
-    n = ctx.pick(800, 6000)
+    n = ctx.pick(700, 6000)
     batch: List[dict] = []
     for k in range(n):
         h = G.random_history(ctx.rng, queries=(k % 5 == 0))
@@ -625,8 +637,17 @@ def selftest(ctx: Ctx) -> int:
     b = copy.deepcopy(good)      # dropped event (the second Set-Cookie): values no longer line up
     del b["events"][1]
     bad.append(("*", b))
+    # the same value re-sent with Secure added: the attributes of the latest write win
+    h2 = [R(G.EXAMPLE, G.ROOT, "https", "n", 1, G.resolve_dom(G.EXAMPLE, "absent"), None, False, -1, 0),
+          dict(R(G.EXAMPLE, G.ROOT, "https", "n", 1, G.resolve_dom(G.EXAMPLE, "same"), G.ROOT, True, -1, 0), re=1)]
+    good2 = execute(h2, False, "jar", loop, ctx.rng, scratch, "selftest")
+    b = copy.deepcopy(good2)     # ... as if the stored cookie had kept its old attributes
+    b["events"][1]["obs"] = copy.deepcopy(good2["events"][0]["obs"])
+    bad.append(("SecureLeak", b))
+    vs2, _ = _validate_parallel([good2])
+    print("re-sent value trace accepted:", vs2[0].ok, vs2[0].clause, [e["val"] for e in good2["events"]])
     vs, _ = _validate_parallel([good] + [x for _, x in bad])
-    ok = vs[0].ok
+    ok = vs[0].ok and vs2[0].ok and [e["val"] for e in good2["events"]] == [1, 1]
     print("good trace accepted:", vs[0].ok, vs[0].clause)
     for (want, _), v in zip(bad, vs[1:]):
         hit = (not v.ok) and (want == "*" or v.clause == want) and v.info[1] == 0   # and no named deviation explains it
